@@ -117,7 +117,7 @@ def chan(c):
 def ctor(c):
     uc = c["user_call"]
     return ("{| cb_user := %s; cb_debut := %s; cb_phantoms := %s; cb_chan := %s; cb_chan_binds := %s; cb_spawns := %s; "
-            "cb_wrap := %s; cb_fields := %s; cb_wrapped := %s; cb_members := %s; cb_extra := %s |}") % (
+            "cb_wrap := %s; cb_fields := %s; cb_wrapped := %s; cb_members := %s; cb_extra := %s; cb_order := %s; cb_ret := %s |}") % (
         opt(uc, lambda u: "{| uc_bind := %s; uc_path := %s; uc_method := %s; uc_args := %s; uc_try := %s |}" % (
             s(u["bind"]), s(u["path"]), s(u["method"]), lst(u["args"], src), b(u["try"]))),
         opt(c["debut_call"], lambda d: pair(s(d[0]), s(d[1]))),
@@ -126,10 +126,15 @@ def ctor(c):
         s(c["wrap"]), lst(c["fields"], lambda f: pair(s(f[0]), src(f[1]))),
         opt(c["wrapped"], lambda w: "(%s, %s, %s)" % (s(w["bind"]), s(w["lock"]), s(w["inner"]))),
         lst(c["members"], lambda mn: "{| mn_bind := %s; mn_live := %s; mn_args := %s |}" % (s(mn["bind"]), s(mn["live"]), lst(mn["args"], s))),
-        lst([x for x in c["extra"] if x.strip() != ";"], s))
+        lst([x for x in c["extra"] if x.strip() != ";"], s), lst(c["order"], s), s(c.get("ret", "")))
 
 
-def body(x):
+_ret = ""
+
+
+def body(x, ret=""):
+    global _ret
+    _ret = ret
     k = x[0]
     if k == "BRef":
         return "(BRef %s)" % ref_body(x[1])
@@ -141,7 +146,7 @@ def body(x):
             opt(d["guard"], lambda g: "(%s, %s, %s)" % (s(g[0]), s(g[1]), s(g[2]))), lst(d["binds"], s), s(d["stop_on"]), b(d["stop_await"]),
             ucall(d["call"]), b(d["await"]), opt(d["else"], s)))
     if k == "BCtor":
-        return "(BCtor %s)" % ctor(x[1])
+        return "(BCtor %s)" % ctor(dict(x[1], ret=_ret))
     if k == "BStop":
         return "(BStop %s %s %s)" % (ref_body(x[1]), lst(x[2], s), lst(x[3], src))
     if k == "BInter":
@@ -156,7 +161,7 @@ def lmethod(m):
             "lm_where := %s; lm_docs := %s; lm_body := %s |}") % (
         s(m.get("name", "?")), s(m.get("vis", "")), b(m.get("async", False)), s(m.get("generics", "")), s(m.get("self", "")),
         lst(m.get("params", []), lambda p: pair(s(p[0]), s(p[1]))), s(m.get("ret", "")), s(m.get("where", "")),
-        lst(m.get("docs", []), s), body(m["body_ir"]))
+        lst(m.get("docs", []), s), body(m["body_ir"], m.get("ret", "")))
 
 
 def play(p):
